@@ -192,8 +192,13 @@ def finish(prop, tier, seed, result, evid_path):
             rp = os.path.join(ROOT, 'replays', '%s-%d.json' % (prop, i))
             found = None
             try:
-                import replay
-                found = replay.search(prop, f, seed, tier)
+                if f.get('kani_harness'):
+                    import kani_driver
+                    pb = kani_driver.playback(f['kani_harness'], f.get('kani_args', ()))
+                    found = {'input': pb, 'kind': 'kani concrete playback (unit test with the counterexample bytes)'} if pb else {'input': None}
+                else:
+                    import replay
+                    found = replay.search(prop, f, seed, tier)
             except Exception as e:      # the search is best-effort; the violation is reported regardless
                 found = {'error': 'replay search failed: %r' % (e,)}
             doc = {'property': prop, 'obligation': f.get('obligation'), 'origin': f.get('origin'),
